@@ -67,6 +67,7 @@ type shape struct {
 	stdout    int // 0 absent, 1 digest, 2 empty-blob digest
 	stderr    int
 	stdoutRaw bool // stdout_raw without digest (nothing referenced)
+	stdRawToo bool // stdout_raw / stderr_raw carried IN ADDITION to their digests (the digests are still references)
 	symlinks  int
 	smallStd  bool // stdout/stderr blobs below one block (recency histories on tiny caches)
 	label     string
@@ -226,6 +227,9 @@ func genShape(rng *rand.Rand, i int) *shape {
 	}
 	if sh.stdout == 0 && rng.IntN(4) == 0 {
 		sh.stdoutRaw = true
+	}
+	if (sh.stdout == 1 || sh.stderr == 1) && rng.IntN(3) == 0 {
+		sh.stdRawToo = true
 	}
 	sh.symlinks = rng.IntN(3)
 	sh.label = fmt.Sprintf("files=%d/%s dirs=%d", n, inlineMode, nd)
@@ -480,10 +484,26 @@ func build(sh *shape, tag string, rng *rand.Rand, mis int, ov map[int]int) *inst
 		applyMis(ri)
 		return in.refs[ri].stated()
 	}
+	nrefs := len(in.refs)
 	ar.StdoutDigest = addStd(sh.stdout, clsStdout)
 	ar.StderrDigest = addStd(sh.stderr, clsStderr)
 	if sh.stdoutRaw {
 		ar.StdoutRaw = []byte("raw stdout of " + tag)
+	}
+	if sh.stdRawToo {
+		// the stream is also carried inline, consistently with its digest (an upload path that stores inlined
+		// streams in the CAS thereby makes the blob present: presence is observed, never assumed)
+		for i := nrefs; i < len(in.refs); i++ {
+			rf := in.refs[i]
+			if rf.Stated != rf.Size || len(rf.content) == 0 || len(rf.content) > 200*1024 {
+				continue
+			}
+			if rf.Class == clsStdout {
+				ar.StdoutRaw = rf.content
+			} else if rf.Class == clsStderr {
+				ar.StderrRaw = rf.content
+			}
+		}
 	}
 	for s := 0; s < sh.symlinks; s++ {
 		ar.OutputSymlinks = append(ar.OutputSymlinks, &pb.OutputSymlink{Path: fmt.Sprintf("out/l%d", s), Target: "f0"})
